@@ -7,7 +7,7 @@ ASSUMPTIONS = CR_ASSUMPTIONS = [
     "the generator is driven through a scripted subclass of cryptorandom.SHA256 (harness/tape.py): requests are answered lazily and logged; the same answers are replayed for the keep_dist twin",
     "data are small integers times the product of the group sizes times a power of two (optionally plus a large offset), so every named float statistic is exact in binary64",
     "SHA-256 / Mersenne-Twister output is assumed uniform (real-seed runs check reproducibility and the p-value assembly only)"]
-ALLOWED = ['shift-guard', 'inverse-guard', 'table', 'observed-not-data', 'inadmissible', 'observed-stat', 'p-not-from-dist', 'input-modified', 'keepdist-differs', 'wrong-rearrangement']
+ALLOWED = ['shift-guard', 'inverse-guard', 'table', 'observed-not-data', 'inadmissible', 'observed-stat', 'p-not-from-dist', 'input-modified', 'keepdist-differs', 'wrong-rearrangement', 'draws-depend-on-data', 'irreproducible']
 FOCUS = 'C16'
 
 
